@@ -115,7 +115,10 @@ class FsAudit:
                 p = os.fspath(p)
                 if isinstance(p, bytes):
                     p = os.fsdecode(p)
-                norm.append(os.path.abspath(p))
+                p = os.path.abspath(p)
+                if p.startswith("//"):
+                    p = "/" + p.lstrip("/")        # abspath keeps exactly two leading slashes; the kernel does not care
+                norm.append(p)
             except Exception:
                 norm.append(repr(p))
         self.events.append((ev, norm))
